@@ -59,6 +59,30 @@ def _dom_ok(nel3):
     return nn % nel != 0
 
 
+EXHAUSTIVE = False
+EXHAUSTIVE_NOTE = ("a fixed list of large VTI cases (one array with more than 2**16 and "
+                   "one with more than 2**17 float32 values, 2D and 3D) that the size-bounded generator never reaches")
+
+
+def enumerate_cases(tier):
+    """Large domains: arrays whose float32 payload is longer than 65536 / 131072 values (block-wise encoders)."""
+    def arr(kind, ncomp, nblock, tag, seed, cols=False, dtype="f8"):
+        return {"kind": kind, "ncomp": ncomp, "nblock": nblock, "dtype": dtype, "cols": cols, "seed": seed, "tag": tag}
+    base = {"what": "vti", "scale": 1.0, "direct": False, "origin": None, "overwrite": True, "iters": 1, "subdir": [],
+            "fname": "out.vti"}
+    out = [
+        dict(base, dom={"nel": [181, 121, 0], "unit": [1.0, 1.0, 1.0]},
+             arrays=[arr("node", 3, 0, "disp", 1), arr("elem", 1, 0, "rho", 2)]),
+        dict(base, dom={"nel": [41, 31, 17], "unit": [0.5, 1.0, 2.0]}, scale=2.0,
+             arrays=[arr("node", 3, 0, "disp", 3), arr("elem", 1, 0, "rho", 4, dtype="f4")]),
+        dict(base, dom={"nel": [181, 121, 0], "unit": [1.0, 1.0, 1.0]}, iters=2, overwrite=False, fname="big",
+             arrays=[arr("node", 2, 2, "sens", 5), arr("elem", 1, 3, "T", 6, cols=True)]),
+        dict(base, dom={"nel": [300, 233, 0], "unit": [1.0, 1.0, 1.0]},
+             arrays=[arr("elem", 1, 0, "rho", 7), arr("node", 1, 0, "T", 8)]),
+    ]
+    return out
+
+
 def strategy(tier):
     big = tier != "quick"
     seed = st.integers(0, 2 ** 31 - 1)
